@@ -6,7 +6,8 @@
       raw text, {print e} (no directives), {css}, {debugger}, {log}, {if}/{elseif}/{else},
       {switch}/{case}/{default}, {foreach $x in [e₁, …]}…{ifempty}… (the list given as a literal),
       {for $i in range(a[, b[, s]])} / {foreach … in range(…)},
-      {let $x: e /}, {let $x}…{/let}, {call} without a data attribute and with value params, header params
+      {let $x: e /}, {let $x}…{/let}, {call} without a data attribute or with data="all", and with value
+      params, header params
       — nested arbitrarily, templates calling templates to any depth (`render_refines_lexical_partial`),
       with expressions of the scalar operator fragment of Props/C01.lean,
 
@@ -22,9 +23,12 @@
 
   Still outside (exactly): expressions beyond Props/C01's scalar operator fragment (accesses, collection
   literals other than a loop's list literal, functions other than a loop's range — hence also `index` /
-  `isFirst` / `isLast`), print directives, {call} with data="all" or data="$e" (the caller's entry data would
-  have to be related to the frames `alldata` passes; maps are not scalars), content params
-  ({param k}…{/param}), {msg}.  Those are covered by the scoping theorems of Props/C02.lean and by the Spec.render oracle of the C02exec correspondence.
+  `isFirst` / `isLast`), print directives, {call} with data="$e" (maps are not scalars), content params
+  ({param k}…{/param}), {msg}.
+
+  data="all": `Rel` carries, next to the bindings, `EntRel`: the frames `alldata` passes from the running
+  scope bind exactly the specification's `entry` bindings, and the top (let) frame is not among them — so
+  what a data="all" call passes is the template's ENTRY data whatever was {let}-bound since.  Those are covered by the scoping theorems of Props/C02.lean and by the Spec.render oracle of the C02exec correspondence.
 -/
 import SoyVerif.Lemmas.ExecRefine
 import SoyVerif.Lemmas.RangeRefine
@@ -64,6 +68,7 @@ def cfrag : Cmd → Bool
   | .forc _ _ (.func _ name args) body (some b) => name == fRange && fragList args && bfrag body && bfrag b
   | .forc _ _ (.list _ items) body (some b) => fragList items && bfrag body && bfrag b
   | .call _ _ false none ps => paramsFrag ps
+  | .call _ _ true none ps => paramsFrag ps
   | .letValue _ _ e => frag e
   | .letContent _ _ b => bfrag b
   | .headerParam _ _ _ _ _ _ => true
@@ -81,39 +86,103 @@ def casesFrag : CaseList → Bool
   | .cons _ vs b r => vs.all frag && bfrag b && casesFrag r
 end
 
-/-- the model's scope (through the heap) and the lexical environment bind the same scalars -/
-def Rel (g : GEnv) (ctx : Scope) (st : St) (env : Spec.Eval.Env) : Prop := EnvRel (eenv g ctx st) env
+/-- the frames of `cd` bind exactly `B` (scalars) -/
+def FrameRel (heap : List Cell) (cd : Scope) (B : Spec.Eval.Binds) : Prop :=
+  ∀ k, absV (lookup heap cd k) = (Spec.Eval.find B k).getD .undefined ∧ Scalar (lookup heap cd k) = true
 
-theorem Rel.of_lookup {g : GEnv} {ctx : Scope} {st st' : St} {env : Spec.Eval.Env} (h : Rel g ctx st env)
-    (hl : ∀ k, lookup st'.heap ctx k = lookup st.heap ctx k) : Rel g ctx st' env := by
-  refine ⟨fun k hk => ?_, fun k => ?_, h.globals⟩
+/-- the running template's ENTRY data — what a data="all" call passes — against the specification's `entry`
+    bindings: the scope is an unmarked top frame above frames whose `alldata` part binds exactly `entry`,
+    and the top frame is not one of the passed frames (so a {let} cannot change what is passed) -/
+def EntRel (entry : Spec.Eval.Binds) (ctx : Scope) (st : St) : Prop :=
+  ∃ f r sc, ctx = f :: r ∧ f.entered = false ∧ alldata r = some sc ∧ (∀ x ∈ sc, x.ref ≠ f.ref) ∧
+    (∀ x ∈ sc, x.ref < st.heap.length) ∧ FrameRel st.heap sc entry
+
+/-- the model's scope (through the heap) and the lexical environment bind the same scalars, and the frames
+    a data="all" call would pass bind the template's entry data -/
+structure Rel (g : GEnv) (entry : Spec.Eval.Binds) (ctx : Scope) (st : St) (env : Spec.Eval.Env) : Prop where
+  base : EnvRel (eenv g ctx st) env
+  ent : EntRel entry ctx st
+
+theorem alldata_sub : ∀ (r sc : Scope), alldata r = some sc → ∀ x ∈ sc, x ∈ r := by
+  intro r sc h x hx
+  obtain ⟨pre, f, rest, h1, h2, _, _⟩ := C02.alldata_spec r sc h
+  rw [h1]; rw [h2] at hx
+  exact List.mem_append_right _ hx
+
+theorem FrameRel.of_lookup {heap heap' : List Cell} {cd : Scope} {B : Spec.Eval.Binds} (h : FrameRel heap cd B)
+    (hl : ∀ k, lookup heap' cd k = lookup heap cd k) : FrameRel heap' cd B :=
+  fun k => by rw [hl k]; exact h k
+
+/-- a state change that leaves the frames of the scope — other than writable ones it does not contain —
+    alone keeps the relation -/
+theorem Rel.of_ext {g : GEnv} {entry : Spec.Eval.Binds} {ctx : Scope} {st st' : St} {env : Spec.Eval.Env} {W : Nat → Prop}
+    (h : Rel g entry ctx st env) (e : Ext W st st') (hok : ScopeOk ctx st) (hW : ∀ f ∈ ctx, ¬ W f.ref) :
+    Rel g entry ctx st' env := by
+  have hl := lookup_ext_W e ctx hok hW
+  refine ⟨⟨fun k hk => ?_, fun k => ?_, h.base.globals⟩, ?_⟩
   · show absV (lookup st'.heap ctx k) = _
-    rw [hl k]; exact h.vars k hk
+    rw [hl k]; exact h.base.vars k hk
   · show Scalar (lookup st'.heap ctx k) = true
-    rw [hl k]; exact h.scalar k
+    rw [hl k]; exact h.base.scalar k
+  · obtain ⟨f, r, sc, hc, hf, ha, hne, hlt, hfr⟩ := h.ent
+    refine ⟨f, r, sc, hc, hf, ha, hne, fun x hx => Nat.lt_of_lt_of_le (hlt x hx) e.len, ?_⟩
+    have hsub : ∀ x ∈ sc, x ∈ ctx := fun x hx => by rw [hc]; exact List.mem_cons_of_mem _ (alldata_sub r sc ha x hx)
+    exact hfr.of_lookup (lookup_ext_W e sc (fun x hx => hlt x hx) (fun x hx => hW x (hsub x hx)))
+
+theorem Rel.of_heap {g : GEnv} {entry : Spec.Eval.Binds} {ctx : Scope} {st st' : St} {env : Spec.Eval.Env}
+    (h : Rel g entry ctx st env) (hh : st'.heap = st.heap) : Rel g entry ctx st' env := by
+  refine ⟨⟨fun k hk => ?_, fun k => ?_, h.base.globals⟩, ?_⟩
+  · show absV (lookup st'.heap ctx k) = _
+    rw [hh]; exact h.base.vars k hk
+  · show Scalar (lookup st'.heap ctx k) = true
+    rw [hh]; exact h.base.scalar k
+  · obtain ⟨f, r, sc, hc, hf, ha, hne, hlt, hfr⟩ := h.ent
+    exact ⟨f, r, sc, hc, hf, ha, hne, by rw [hh]; exact hlt, by rw [hh]; exact hfr⟩
+
+/-- writes to the top frame do not reach the entry data -/
+theorem EntRel.of_ext_top {entry : Spec.Eval.Binds} {ctx : Scope} {st st' : St} (h : EntRel entry ctx st)
+    (e : Ext (fun i => i = top ctx) st st') : EntRel entry ctx st' := by
+  obtain ⟨f, r, sc, hc, hf, ha, hne, hlt, hfr⟩ := h
+  refine ⟨f, r, sc, hc, hf, ha, hne, fun x hx => Nat.lt_of_lt_of_le (hlt x hx) e.len, ?_⟩
+  exact hfr.of_lookup (lookup_ext_W e sc (fun x hx => hlt x hx) (fun x hx hw => hne x hx (by rw [hc] at hw; exact hw)))
+
+/-- a pushed (unmarked, empty) frame: same bindings, same entry data -/
+theorem Rel.pushed {g : GEnv} {entry : Spec.Eval.Binds} {ctx : Scope} {st : St} {env : Spec.Eval.Env}
+    (h : Rel g entry ctx st env) (hok : ScopeOk ctx st) : Rel g entry (push ctx st).1 (push ctx st).2 env := by
+  obtain ⟨hctx1, _, hext1, _⟩ := push_spec ctx st
+  refine ⟨⟨fun k hk => ?_, fun k => ?_, h.base.globals⟩, ?_⟩
+  · show absV (lookup (push ctx st).2.heap (push ctx st).1 k) = _
+    rw [lookup_push ctx st hok k]; exact h.base.vars k hk
+  · show Scalar (lookup (push ctx st).2.heap (push ctx st).1 k) = true
+    rw [lookup_push ctx st hok k]; exact h.base.scalar k
+  · obtain ⟨f, r, sc, hc, hf, ha, hne, hlt, hfr⟩ := h.ent
+    refine ⟨⟨st.heap.length, false⟩, ctx, sc, hctx1, rfl, by rw [hc, alldata, hf]; simpa using ha, ?_, ?_, ?_⟩
+    · intro x hx e; have := hlt x hx; simp at e; omega
+    · intro x hx; exact Nat.lt_of_lt_of_le (hlt x hx) (hext1 (fun _ => False)).len
+    · exact hfr.of_lookup (lookup_ext_W (hext1 (fun _ => False)) sc (fun x hx => hlt x hx) (fun _ _ h => h))
 
 /-- what the model did agrees with what the specification says for a command -/
-def Agree (g : GEnv) (ctx : Scope) (st : St) (r : R) : Spec.Eval.ROut → Prop
-  | .val (out, env') => r.cls = .ok ∧ bufBytes r.st.out = bufBytes st.out ++ out ∧ Rel g ctx r.st env'
+def Agree (g : GEnv) (entry : Spec.Eval.Binds) (ctx : Scope) (st : St) (r : R) : Spec.Eval.ROut → Prop
+  | .val (out, env') => r.cls = .ok ∧ bufBytes r.st.out = bufBytes st.out ++ out ∧ Rel g entry ctx r.st env'
   | .error => r.cls = .err
   | .unspec => True
 
 /-- … and for a block (the environment afterwards is the one before) -/
-def AgreeB (g : GEnv) (ctx : Scope) (st : St) (env : Spec.Eval.Env) (r : R) : Out Bytes → Prop
-  | .val out => r.cls = .ok ∧ bufBytes r.st.out = bufBytes st.out ++ out ∧ Rel g ctx r.st env
+def AgreeB (g : GEnv) (entry : Spec.Eval.Binds) (ctx : Scope) (st : St) (env : Spec.Eval.Env) (r : R) : Out Bytes → Prop
+  | .val out => r.cls = .ok ∧ bufBytes r.st.out = bufBytes st.out ++ out ∧ Rel g entry ctx r.st env
   | .error => r.cls = .err
   | .unspec => True
 
 /-- the specification's agreement does not look at `s.node` -/
 theorem Agree.of_atNode {g : GEnv} {ctx : Scope} {st : St} {p : Nat} {r : R} {o : Spec.Eval.ROut}
-    (h : Agree g ctx (atNode st p) r o) : Agree g ctx st r o := by
+    (h : Agree g entry ctx (atNode st p) r o) : Agree g entry ctx st r o := by
   cases o with
   | unspec => trivial
   | error => exact h
   | val q => exact h
 
 theorem AgreeB.of_atNode {g : GEnv} {ctx : Scope} {st : St} {env : Spec.Eval.Env} {p : Nat} {r : R} {o : Out Bytes}
-    (h : AgreeB g ctx (atNode st p) env r o) : AgreeB g ctx st env r o := by
+    (h : AgreeB g entry ctx (atNode st p) env r o) : AgreeB g entry ctx st env r o := by
   cases o with
   | unspec => trivial
   | error => exact h
@@ -125,27 +194,20 @@ def AgreeT (st : St) (r : R) : Out Bytes → Prop
   | .error => r.cls = .err
   | .unspec => True
 
-/-- the frames of `cd` bind exactly `B` (scalars) -/
-def FrameRel (heap : List Cell) (cd : Scope) (B : Spec.Eval.Binds) : Prop :=
-  ∀ k, absV (lookup heap cd k) = (Spec.Eval.find B k).getD .undefined ∧ Scalar (lookup heap cd k) = true
-
 theorem absV_undefined (mv : Value) (h : absV mv = .undefined) : mv = .undefined := by
   cases mv <;> simp [absV] at h ⊢
 
 /-- expressions in a context: eval_refines_spec_partial through `evalIn` -/
-theorem evalIn_sim {g : GEnv} {ctx : Scope} {st : St} {env : Spec.Eval.Env} (hr : Rel g ctx st env) (e : Expr)
+theorem evalIn_sim {g : GEnv} {ctx : Scope} {st : St} {env : Spec.Eval.Env} (hr : Rel g entry ctx st env) (e : Expr)
     (hf : frag e = true) :
     (∀ v, Spec.Eval.eval env e = .val v → ∃ mv st1, evalIn g e ctx st = some (mv, st1) ∧ absV mv = v ∧
         Scalar mv = true ∧ st1.heap = st.heap ∧ st1.out = st.out) ∧
     (Spec.Eval.eval env e = .error → evalIn g e ctx st = none) := by
-  have h := C01.eval_refines_spec_partial hr e hf st.next
+  have h := C01.eval_refines_spec_partial hr.base e hf st.next
   refine ⟨fun v hv => ?_, fun herr => ?_⟩
   · obtain ⟨mv, n', h1, h2, h3⟩ := h.1 v hv
     exact ⟨mv, { st with next := n' }, by simp [evalIn, h1], h2, h3, rfl, rfl⟩
   · simp [evalIn, h.2 herr]
-
-theorem Rel.of_heap {g : GEnv} {ctx : Scope} {st st' : St} {env : Spec.Eval.Env} (h : Rel g ctx st env)
-    (hh : st'.heap = st.heap) : Rel g ctx st' env := h.of_lookup (fun k => by rw [hh])
 
 theorem helper_index (v : Bytes) : C01.isHelper (v ++ sIndexSuffix) = true := by
   simp [C01.isHelper, List.isSuffixOf_iff_suffix]
@@ -186,12 +248,12 @@ theorem evalArgs_sim {m : EEnv} {env : Spec.Eval.Env} (hr : EnvRel m env) :
         · simp at h
 
 /-- `{foreach $x in [e₁, …]}`: the list literal through `evalIn` -/
-theorem evalIn_list_sim {g : GEnv} {ctx : Scope} {st : St} {env : Spec.Eval.Env} (hr : Rel g ctx st env) (p : Nat)
+theorem evalIn_list_sim {g : GEnv} {ctx : Scope} {st : St} {env : Spec.Eval.Env} (hr : Rel g entry ctx st env) (p : Nat)
     (items : ExprList) (hf : fragList items = true) :
     (∀ v, Spec.Eval.eval env (.list p items) = .val v → ∃ id mvs st1, evalIn g (.list p items) ctx st = some (.list id mvs, st1) ∧
         v = .list (absL mvs) ∧ (∀ x ∈ mvs, Scalar x = true) ∧ st1.heap = st.heap ∧ st1.out = st.out) ∧
     (Spec.Eval.eval env (.list p items) = .error → evalIn g (.list p items) ctx st = none) := by
-  have h := evalArgs_sim hr items hf st.next
+  have h := evalArgs_sim hr.base items hf st.next
   rw [Spec.Eval.eval]
   refine ⟨fun v hv => ?_, fun herr => ?_⟩
   · obtain ⟨vs, hv1, hv⟩ := C01.bind_val hv
@@ -232,12 +294,12 @@ theorem applyFn_range_arity (vs : List Val) (h : ¬ ([1, 2, 3].contains vs.lengt
       Spec.Eval.nFloor, Spec.Eval.nCeiling, Spec.Eval.nMin, Spec.Eval.nMax, Spec.Eval.nStrContains]
 
 /-- `{for $i in range(…)}`: the range call through `evalIn` -/
-theorem evalIn_range_sim {g : GEnv} {ctx : Scope} {st : St} {env : Spec.Eval.Env} (hr : Rel g ctx st env) (p : Nat)
+theorem evalIn_range_sim {g : GEnv} {ctx : Scope} {st : St} {env : Spec.Eval.Env} (hr : Rel g entry ctx st env) (p : Nat)
     (args : ExprList) (hf : fragList args = true) :
     (∀ v, Spec.Eval.eval env (.func p fRange args) = .val v → ∃ id mvs st1, evalIn g (.func p fRange args) ctx st = some (.list id mvs, st1) ∧
         v = .list (absL mvs) ∧ (∀ x ∈ mvs, Scalar x = true) ∧ st1.heap = st.heap ∧ st1.out = st.out) ∧
     (Spec.Eval.eval env (.func p fRange args) = .error → evalIn g (.func p fRange args) ctx st = none) := by
-  have h := evalArgs_sim hr args hf st.next
+  have h := evalArgs_sim hr.base args hf st.next
   have hloopS : Spec.Eval.isLoopFn fRange = false := by decide
   have hloopM : isLoopFunc fRange = false := by decide
   have har : funcArities fRange = some [1, 2, 3] := by decide
@@ -277,22 +339,17 @@ variable (g : GEnv) (hob : g.oblig = []) (esc : Bool) (call : Registry.Tmpl → 
   (reg : Registry.Reg) (hasBundle : Bool) (entry : Spec.Eval.Binds) (scall : Registry.Tmpl → Spec.Eval.CallEnv → Out Bytes)
   (hreg : g.reg = reg)
   (hcs : ∀ (t : Registry.Tmpl), t ∈ reg → ∀ (cctx : Scope) (s2 : St) (ce : Spec.Eval.CallEnv),
-    Rel g cctx s2 { vars := ce.entry, loops := [], ij := ce.ij, globals := ce.globals } → Own cctx s2 → ScopeOk cctx s2 →
+    Rel g ce.entry cctx s2 { vars := ce.entry, loops := [], ij := ce.ij, globals := ce.globals } → Own cctx s2 → ScopeOk cctx s2 →
     AgreeT s2 (call t cctx s2) (scall t ce))
 
 /-- a block whose body agrees command by command agrees as a block -/
 theorem block_agree (body : Run) (sbody : Spec.Eval.Env → Out Bytes) (hgood : GoodRun body)
-    (hb : ∀ ctx st env, Rel g ctx st env → Own ctx st → ScopeOk ctx st →
-      ∃ o : Spec.Eval.ROut, (Agree g ctx st (body ctx st) o) ∧ sbody env = o.bind fun p => .val p.1)
-    (ctx : Scope) (st : St) (env : Spec.Eval.Env) (hr : Rel g ctx st env) (hok : ScopeOk ctx st) :
-    AgreeB g ctx st env (walkBlockOf body ctx st) (sbody env) := by
+    (hb : ∀ ctx st env, Rel g entry ctx st env → Own ctx st → ScopeOk ctx st →
+      ∃ o : Spec.Eval.ROut, (Agree g entry ctx st (body ctx st) o) ∧ sbody env = o.bind fun p => .val p.1)
+    (ctx : Scope) (st : St) (env : Spec.Eval.Env) (hr : Rel g entry ctx st env) (hok : ScopeOk ctx st) :
+    AgreeB g entry ctx st env (walkBlockOf body ctx st) (sbody env) := by
   obtain ⟨hctx1, hown1, hext1, hout1⟩ := push_spec ctx st
-  have hr1 : Rel g (push ctx st).1 (push ctx st).2 env := by
-    refine ⟨fun k hk => ?_, fun k => ?_, hr.globals⟩
-    · show absV (lookup (push ctx st).2.heap (push ctx st).1 k) = _
-      rw [lookup_push ctx st hok k]; exact hr.vars k hk
-    · show Scalar (lookup (push ctx st).2.heap (push ctx st).1 k) = true
-      rw [lookup_push ctx st hok k]; exact hr.scalar k
+  have hr1 : Rel g entry (push ctx st).1 (push ctx st).2 env := hr.pushed hok
   have hok1 : ScopeOk (push ctx st).1 (push ctx st).2 := by
     intro f hf
     rw [hctx1] at hf
@@ -320,12 +377,12 @@ theorem block_agree (body : Run) (sbody : Spec.Eval.Env → Out Bytes) (hgood : 
     refine ⟨rfl, by rw [hbytes, hout1], ?_⟩
     -- the block's bindings are gone: every lookup through `ctx` reads what it read before
     rw [heq] at hwb
-    exact hr.of_lookup (C02.lookup_ext hwb.ext ctx hok)
+    exact hr.of_ext hwb.ext hok (fun _ _ h => h)
 
 omit hob in
 /-- the case values of a {switch}: `matchCase` against the specification's `matchAny` -/
 theorem matchCase_sim {ctx : Scope} {env : Spec.Eval.Env} (sv : Value) (hsv : Scalar sv = true) :
-    ∀ (vs : List Expr) (st : St), Rel g ctx st env → vs.all frag = true →
+    ∀ (vs : List Expr) (st : St), Rel g entry ctx st env → vs.all frag = true →
       (∀ b, Spec.Eval.matchAny env (absV sv) vs = .val b →
         ∃ st1, matchCase g ctx sv vs st = some (b, st1) ∧ st1.heap = st.heap ∧ st1.out = st.out) ∧
       (Spec.Eval.matchAny env (absV sv) vs = .error → matchCase g ctx sv vs st = none) := by
@@ -400,30 +457,30 @@ theorem find_bind (env : Spec.Eval.Env) (name : Bytes) (v : Val) (k : Bytes) :
 
 /-- binding a scalar in the top frame corresponds to extending the lexical environment -/
 theorem Rel.set {ctx : Scope} {st st2 : St} {env : Spec.Eval.Env} {name : Bytes} {mv : Value}
-    (hr : Rel g ctx st env) (hown : Own ctx st) (hs : Eval.set ctx st name mv = some st2) (hsc : Scalar mv = true) :
-    Rel g ctx st2 (env.bind name (absV mv)) := by
-  refine ⟨fun k hk => ?_, fun k => ?_, hr.globals⟩
+    (hr : Rel g entry ctx st env) (hown : Own ctx st) (hs : Eval.set ctx st name mv = some st2) (hsc : Scalar mv = true) :
+    Rel g entry ctx st2 (env.bind name (absV mv)) := by
+  refine ⟨⟨fun k hk => ?_, fun k => ?_, hr.base.globals⟩, hr.ent.of_ext_top (set_ext hown hs)⟩
   · show absV (lookup st2.heap ctx k) = _
     rw [lookup_set hown hs k, find_bind]
     split
     · rfl
-    · exact hr.vars k hk
+    · exact hr.base.vars k hk
   · show Scalar (lookup st2.heap ctx k) = true
     rw [lookup_set hown hs k]
     split
     · exact hsc
-    · exact hr.scalar k
+    · exact hr.base.scalar k
 
 omit hob in
 /-- the iterations of a {foreach}: each runs in a frame of its own that binds the loop variable (and the
     helpers, which the fragment cannot read); afterwards every binding is what it was -/
 theorem loop_agree (body : Run) (sbody : Spec.Eval.Env → Out Bytes) (hgood : GoodRun body)
-    (hb : ∀ ctx st env, Rel g ctx st env → Own ctx st → ScopeOk ctx st →
-      ∃ o : Spec.Eval.ROut, (Agree g ctx st (body ctx st) o) ∧ sbody env = o.bind fun p => .val p.1)
+    (hb : ∀ ctx st env, Rel g entry ctx st env → Own ctx st → ScopeOk ctx st →
+      ∃ o : Spec.Eval.ROut, (Agree g entry ctx st (body ctx st) o) ∧ sbody env = o.bind fun p => .val p.1)
     (var : Bytes) (last : Int) (lastN : Nat) :
     ∀ (xs : List Value) (i : Nat) (ctx : Scope) (st : St) (env : Spec.Eval.Env),
-      Rel g ctx st env → ScopeOk ctx st → (∀ x ∈ xs, Scalar x = true) →
-      AgreeB g ctx st env (forLoop body var last xs i ctx st) (Spec.Eval.loopSpec sbody env var lastN (absL xs) i) := by
+      Rel g entry ctx st env → ScopeOk ctx st → (∀ x ∈ xs, Scalar x = true) →
+      AgreeB g entry ctx st env (forLoop body var last xs i ctx st) (Spec.Eval.loopSpec sbody env var lastN (absL xs) i) := by
   intro xs
   induction xs with
   | nil => intro i ctx st env hr _ _; unfold forLoop; rw [absL, Spec.Eval.loopSpec]; exact ⟨rfl, by simp, hr⟩
@@ -464,8 +521,8 @@ theorem loop_agree (body : Run) (sbody : Spec.Eval.Env → Out Bytes) (hgood : G
               else lookup st.heap ctx k := by
             intro k
             rw [lookup_set own3 h4 k, lookup_set own2 h3 k, lookup_set hown1 h2 k, lookup_push ctx st hok k]
-          have hr4 : Rel g (push ctx st).1 st4 { (env.bind var (absV x)) with loops := (var, i, lastN) :: env.loops } := by
-            refine ⟨fun k hk => ?_, fun k => ?_, hr.globals⟩
+          have hr4 : Rel g entry (push ctx st).1 st4 { (env.bind var (absV x)) with loops := (var, i, lastN) :: env.loops } := by
+            refine ⟨⟨fun k hk => ?_, fun k => ?_, hr.base.globals⟩, (hr.pushed hok).ent.of_ext_top e4⟩
             · show absV (lookup st4.heap (push ctx st).1 k) = (env.bind var (absV x)).lookup k
               rw [hlk k, find_bind]
               have n1 : (k == var ++ sIndexSuffix) = false := by
@@ -475,7 +532,7 @@ theorem loop_agree (body : Run) (sbody : Spec.Eval.Env → Out Bytes) (hgood : G
               simp only [n1, n2, Bool.false_eq_true, if_false]
               split
               · rfl
-              · exact hr.vars k hk
+              · exact hr.base.vars k hk
             · show Scalar (lookup st4.heap (push ctx st).1 k) = true
               rw [hlk k]
               split
@@ -484,7 +541,7 @@ theorem loop_agree (body : Run) (sbody : Spec.Eval.Env → Out Bytes) (hgood : G
                 · exact hx
                 · split
                   · rfl
-                  · exact hr.scalar k
+                  · exact hr.base.scalar k
           have hok4 : ScopeOk (push ctx st).1 st4 := by
             intro f hf
             rw [hctx1] at hf
@@ -512,7 +569,7 @@ theorem loop_agree (body : Run) (sbody : Spec.Eval.Env → Out Bytes) (hgood : G
             rw [hg.ctx_eq hcls, hctx1]
             simp only [pop_cons]
             have hext : Ext (fun _ => False) st (body (push ctx st).1 st4).st := fresh e5
-            have hr5 : Rel g ctx (body (push ctx st).1 st4).st env := hr.of_lookup (C02.lookup_ext hext ctx hok)
+            have hr5 : Rel g entry ctx (body (push ctx st).1 st4).st env := hr.of_ext hext hok (fun _ _ h => h)
             have hok5 : ScopeOk ctx (body (push ctx st).1 st4).st := fun f hf' => Nat.lt_of_lt_of_le (hok f hf') hext.len
             have hi := ih (i + 1) ctx _ env hr5 hok5 hrest
             rw [hctx1] at hi hbytes
@@ -538,7 +595,7 @@ omit hob hcall hreg hcs in
 /-- the value params of a call: evaluated in the caller's environment, bound in the callee's param frame -/
 theorem params_agree : (ps : ParamList) → paramsFrag ps = true →
     ∀ (cd ctx : Scope) (st : St) (env : Spec.Eval.Env) (B0 : Spec.Eval.Binds),
-    Rel g ctx st env → Own cd st → FrameRel st.heap cd B0 → (∀ f ∈ ctx, f.ref ≠ top cd) → ScopeOk ctx st →
+    Rel g entry ctx st env → Own cd st → FrameRel st.heap cd B0 → (∀ f ∈ ctx, f.ref ≠ top cd) → ScopeOk ctx st →
     match Spec.Eval.renderParams reg hasBundle esc entry scall ps env with
     | .val R => (execParams g esc call ps cd ctx st).cls = .ok ∧
         FrameRel (execParams g esc call ps cd ctx st).st.heap cd (R ++ B0) ∧
@@ -567,8 +624,8 @@ theorem params_agree : (ps : ParamList) → paramsFrag ps = true →
         simp only
         have e2 := set_ext own1 hs
         have hok1 : ScopeOk ctx st1 := fun f hf' => by rw [hheap]; exact hok f hf'
-        have hr2 : Rel g ctx st2 env :=
-          (hr.of_heap hheap).of_lookup (lookup_ext_W e2 ctx hok1 (fun f hf' h => hne f hf' h))
+        have hr2 : Rel g entry ctx st2 env :=
+          (hr.of_heap hheap).of_ext e2 hok1 (fun f hf' h => hne f hf' h)
         have hfr2 : FrameRel st2.heap cd ((key, v) :: B0) := by
           intro k
           rw [lookup_set own1 hs k, find_cons]
@@ -592,8 +649,8 @@ theorem params_agree : (ps : ParamList) → paramsFrag ps = true →
 include hob hcall hreg hcs in
 mutual
 theorem cmd_agree : (c : Cmd) → cfrag c = true → ∀ (ctx : Scope) (st : St) (env : Spec.Eval.Env),
-    Rel g ctx st env → Own ctx st → ScopeOk ctx st →
-    Agree g ctx st (execCmd g esc call c ctx st) (Spec.Eval.renderCmd reg hasBundle esc entry scall c env)
+    Rel g entry ctx st env → Own ctx st → ScopeOk ctx st →
+    Agree g entry ctx st (execCmd g esc call c ctx st) (Spec.Eval.renderCmd reg hasBundle esc entry scall c env)
   | .rawText _ t, _, ctx, st, env, hr, _, _ => by
     rw [execCmd, Spec.Eval.renderCmd]
     exact ⟨rfl, bufBytes_write st t, hr.of_heap rfl⟩
@@ -610,7 +667,7 @@ theorem cmd_agree : (c : Cmd) → cfrag c = true → ∀ (ctx : Scope) (st : St)
     rw [execCmd]
     unfold evalPrint
     refine Agree.of_atNode (p := Expr.pos arg) ?_
-    have hr0 : Rel g ctx (atNode st (Expr.pos arg)) env := hr.of_heap rfl
+    have hr0 : Rel g entry ctx (atNode st (Expr.pos arg)) env := hr.of_heap rfl
     clear hr
     generalize atNode st (Expr.pos arg) = st at hr0 ⊢
     have hr := hr0
@@ -691,7 +748,7 @@ theorem cmd_agree : (c : Cmd) → cfrag c = true → ∀ (ctx : Scope) (st : St)
     | error => simp [Spec.Eval.Out.bind, Agree, h2 hv]
     | val v =>
       obtain ⟨mv, st1, he, habs, hsc, hheap, hout⟩ := h1 v hv
-      have hr1 : Rel g ctx st1 env := hr.of_heap hheap
+      have hr1 : Rel g entry ctx st1 env := hr.of_heap hheap
       have hown1 : Own ctx st1 := hown.ext (Ext.of_heap_eq (W := fun _ => False) hheap (by
         have := evalIn_ext (fun _ => False) he; exact this.foreign))
       simp only [Spec.Eval.Out.bind, he]
@@ -699,7 +756,7 @@ theorem cmd_agree : (c : Cmd) → cfrag c = true → ∀ (ctx : Scope) (st : St)
       | none => exact absurd hs (set_ne_none hown1)
       | some st2 =>
         simp only [Agree]
-        refine ⟨trivial, ?_, by rw [← habs]; exact Rel.set g hr1 hown1 hs hsc⟩
+        refine ⟨trivial, ?_, by rw [← habs]; exact Rel.set g entry hr1 hown1 hs hsc⟩
         have : st2.out = st1.out := by
           obtain ⟨f, r, c, hctx, _, _⟩ := hown1
           subst hctx
@@ -729,13 +786,13 @@ theorem cmd_agree : (c : Cmd) → cfrag c = true → ∀ (ctx : Scope) (st : St)
       rw [hbuf]
       have hown2 : Own ctx { (walkBlockOf (execBody g esc call body) ctx { st with out := [] }).st with out := st.out } :=
         hown.ext hgood.ext
-      have hrel2 : Rel g ctx { (walkBlockOf (execBody g esc call body) ctx { st with out := [] }).st with out := st.out } env :=
+      have hrel2 : Rel g entry ctx { (walkBlockOf (execBody g esc call body) ctx { st with out := [] }).st with out := st.out } env :=
         hrel.of_heap rfl
       cases hs : Eval.set ctx { (walkBlockOf (execBody g esc call body) ctx { st with out := [] }).st with out := st.out } name (.str out) with
       | none => exact absurd hs (set_ne_none hown2)
       | some st2 =>
         simp only [Agree]
-        refine ⟨trivial, ?_, Rel.set g hrel2 hown2 hs rfl⟩
+        refine ⟨trivial, ?_, Rel.set g entry hrel2 hown2 hs rfl⟩
         have : st2.out = st.out := by
           obtain ⟨f, r, c, hctx', _, _⟩ := hown2
           subst hctx'
@@ -747,8 +804,8 @@ theorem cmd_agree : (c : Cmd) → cfrag c = true → ∀ (ctx : Scope) (st : St)
   | .forc _ var (.list p items) (.mk bp cs) none, hf, ctx, st, env, hr, hown, hok => by
     simp only [cfrag, bfrag, Bool.and_eq_true] at hf
     obtain ⟨h1, h2⟩ := evalIn_list_sim hr p items hf.1
-    have hb : ∀ ctx' st' env', Rel g ctx' st' env' → Own ctx' st' → ScopeOk ctx' st' →
-        ∃ o : Spec.Eval.ROut, Agree g ctx' st' (execBody g esc call (.mk bp cs) ctx' st') o ∧
+    have hb : ∀ ctx' st' env', Rel g entry ctx' st' env' → Own ctx' st' → ScopeOk ctx' st' →
+        ∃ o : Spec.Eval.ROut, Agree g entry ctx' st' (execBody g esc call (.mk bp cs) ctx' st') o ∧
           Spec.Eval.renderBlock reg hasBundle esc entry scall (.mk bp cs) env' = o.bind fun q => .val q.1 := by
       intro ctx' st' env' hr' hown' hok'
       refine ⟨cmdsE esc reg hasBundle entry scall cs env', ?_, ?_⟩
@@ -761,7 +818,7 @@ theorem cmd_agree : (c : Cmd) → cfrag c = true → ∀ (ctx : Scope) (st : St)
     | val v =>
       obtain ⟨id, mvs, st1, he, hveq, hsc, hheap, hout⟩ := h1 v hv
       subst hveq
-      have hr1 : Rel g ctx st1 env := hr.of_heap hheap
+      have hr1 : Rel g entry ctx st1 env := hr.of_heap hheap
       have hok1 : ScopeOk ctx st1 := fun f hf' => by rw [hheap]; exact hok f hf'
       simp only [Spec.Eval.Out.bind, he]
       cases mvs with
@@ -770,7 +827,7 @@ theorem cmd_agree : (c : Cmd) → cfrag c = true → ∀ (ctx : Scope) (st : St)
         exact ⟨rfl, by rw [hout]; simp, hr1⟩
       | cons x rest =>
         simp only [List.isEmpty_cons, Bool.false_eq_true, if_false, absL]
-        have hl := loop_agree g (execBody g esc call (.mk bp cs)) _ (execBody_good g esc call hcall _) hb var
+        have hl := loop_agree g entry (execBody g esc call (.mk bp cs)) _ (execBody_good g esc call hcall _) hb var
           (((x :: rest).length : Int) - 1) ((absV x :: absL rest).length - 1) (x :: rest) 0 ctx st1 env hr1 hok1 hsc
         rw [absL] at hl
         cases hlv : Spec.Eval.loopSpec (Spec.Eval.renderBlock reg hasBundle esc entry scall (.mk bp cs)) env var
@@ -784,8 +841,8 @@ theorem cmd_agree : (c : Cmd) → cfrag c = true → ∀ (ctx : Scope) (st : St)
   | .forc _ var (.list p items) (.mk bp cs) (some bE), hf, ctx, st, env, hr, hown, hok => by
     simp only [cfrag, bfrag, Bool.and_eq_true] at hf
     obtain ⟨h1, h2⟩ := evalIn_list_sim hr p items hf.1.1
-    have hb : ∀ ctx' st' env', Rel g ctx' st' env' → Own ctx' st' → ScopeOk ctx' st' →
-        ∃ o : Spec.Eval.ROut, Agree g ctx' st' (execBody g esc call (.mk bp cs) ctx' st') o ∧
+    have hb : ∀ ctx' st' env', Rel g entry ctx' st' env' → Own ctx' st' → ScopeOk ctx' st' →
+        ∃ o : Spec.Eval.ROut, Agree g entry ctx' st' (execBody g esc call (.mk bp cs) ctx' st') o ∧
           Spec.Eval.renderBlock reg hasBundle esc entry scall (.mk bp cs) env' = o.bind fun q => .val q.1 := by
       intro ctx' st' env' hr' hown' hok'
       refine ⟨cmdsE esc reg hasBundle entry scall cs env', ?_, ?_⟩
@@ -798,7 +855,7 @@ theorem cmd_agree : (c : Cmd) → cfrag c = true → ∀ (ctx : Scope) (st : St)
     | val v =>
       obtain ⟨id, mvs, st1, he, hveq, hsc, hheap, hout⟩ := h1 v hv
       subst hveq
-      have hr1 : Rel g ctx st1 env := hr.of_heap hheap
+      have hr1 : Rel g entry ctx st1 env := hr.of_heap hheap
       have hok1 : ScopeOk ctx st1 := fun f hf' => by rw [hheap]; exact hok f hf'
       simp only [Spec.Eval.Out.bind, he]
       cases mvs with
@@ -814,7 +871,7 @@ theorem cmd_agree : (c : Cmd) → cfrag c = true → ∀ (ctx : Scope) (st : St)
           exact ⟨hbe.1, by rw [hbe.2.1, hout], hbe.2.2⟩
       | cons x rest =>
         simp only [List.isEmpty_cons, Bool.false_eq_true, if_false, absL]
-        have hl := loop_agree g (execBody g esc call (.mk bp cs)) _ (execBody_good g esc call hcall _) hb var
+        have hl := loop_agree g entry (execBody g esc call (.mk bp cs)) _ (execBody_good g esc call hcall _) hb var
           (((x :: rest).length : Int) - 1) ((absV x :: absL rest).length - 1) (x :: rest) 0 ctx st1 env hr1 hok1 hsc
         rw [absL] at hl
         cases hlv : Spec.Eval.loopSpec (Spec.Eval.renderBlock reg hasBundle esc entry scall (.mk bp cs)) env var
@@ -830,8 +887,8 @@ theorem cmd_agree : (c : Cmd) → cfrag c = true → ∀ (ctx : Scope) (st : St)
     obtain ⟨⟨hname, hfa⟩, hfb⟩ := hf
     subst hname
     obtain ⟨h1, h2⟩ := evalIn_range_sim hr p args hfa
-    have hb : ∀ ctx' st' env', Rel g ctx' st' env' → Own ctx' st' → ScopeOk ctx' st' →
-        ∃ o : Spec.Eval.ROut, Agree g ctx' st' (execBody g esc call (.mk bp cs) ctx' st') o ∧
+    have hb : ∀ ctx' st' env', Rel g entry ctx' st' env' → Own ctx' st' → ScopeOk ctx' st' →
+        ∃ o : Spec.Eval.ROut, Agree g entry ctx' st' (execBody g esc call (.mk bp cs) ctx' st') o ∧
           Spec.Eval.renderBlock reg hasBundle esc entry scall (.mk bp cs) env' = o.bind fun q => .val q.1 := by
       intro ctx' st' env' hr' hown' hok'
       refine ⟨cmdsE esc reg hasBundle entry scall cs env', ?_, ?_⟩
@@ -844,7 +901,7 @@ theorem cmd_agree : (c : Cmd) → cfrag c = true → ∀ (ctx : Scope) (st : St)
     | val v =>
       obtain ⟨id, mvs, st1, he, hveq, hsc, hheap, hout⟩ := h1 v hv
       subst hveq
-      have hr1 : Rel g ctx st1 env := hr.of_heap hheap
+      have hr1 : Rel g entry ctx st1 env := hr.of_heap hheap
       have hok1 : ScopeOk ctx st1 := fun f hf' => by rw [hheap]; exact hok f hf'
       simp only [Spec.Eval.Out.bind, he]
       cases mvs with
@@ -853,7 +910,7 @@ theorem cmd_agree : (c : Cmd) → cfrag c = true → ∀ (ctx : Scope) (st : St)
         exact ⟨rfl, by rw [hout]; simp, hr1⟩
       | cons x rest =>
         simp only [List.isEmpty_cons, Bool.false_eq_true, if_false, absL]
-        have hl := loop_agree g (execBody g esc call (.mk bp cs)) _ (execBody_good g esc call hcall _) hb var
+        have hl := loop_agree g entry (execBody g esc call (.mk bp cs)) _ (execBody_good g esc call hcall _) hb var
           (((x :: rest).length : Int) - 1) ((absV x :: absL rest).length - 1) (x :: rest) 0 ctx st1 env hr1 hok1 hsc
         rw [absL] at hl
         cases hlv : Spec.Eval.loopSpec (Spec.Eval.renderBlock reg hasBundle esc entry scall (.mk bp cs)) env var
@@ -869,8 +926,8 @@ theorem cmd_agree : (c : Cmd) → cfrag c = true → ∀ (ctx : Scope) (st : St)
     obtain ⟨⟨⟨hname, hfa⟩, hfb⟩, hfe⟩ := hf
     subst hname
     obtain ⟨h1, h2⟩ := evalIn_range_sim hr p args hfa
-    have hb : ∀ ctx' st' env', Rel g ctx' st' env' → Own ctx' st' → ScopeOk ctx' st' →
-        ∃ o : Spec.Eval.ROut, Agree g ctx' st' (execBody g esc call (.mk bp cs) ctx' st') o ∧
+    have hb : ∀ ctx' st' env', Rel g entry ctx' st' env' → Own ctx' st' → ScopeOk ctx' st' →
+        ∃ o : Spec.Eval.ROut, Agree g entry ctx' st' (execBody g esc call (.mk bp cs) ctx' st') o ∧
           Spec.Eval.renderBlock reg hasBundle esc entry scall (.mk bp cs) env' = o.bind fun q => .val q.1 := by
       intro ctx' st' env' hr' hown' hok'
       refine ⟨cmdsE esc reg hasBundle entry scall cs env', ?_, ?_⟩
@@ -883,7 +940,7 @@ theorem cmd_agree : (c : Cmd) → cfrag c = true → ∀ (ctx : Scope) (st : St)
     | val v =>
       obtain ⟨id, mvs, st1, he, hveq, hsc, hheap, hout⟩ := h1 v hv
       subst hveq
-      have hr1 : Rel g ctx st1 env := hr.of_heap hheap
+      have hr1 : Rel g entry ctx st1 env := hr.of_heap hheap
       have hok1 : ScopeOk ctx st1 := fun f hf' => by rw [hheap]; exact hok f hf'
       simp only [Spec.Eval.Out.bind, he]
       cases mvs with
@@ -899,7 +956,7 @@ theorem cmd_agree : (c : Cmd) → cfrag c = true → ∀ (ctx : Scope) (st : St)
           exact ⟨hbe.1, by rw [hbe.2.1, hout], hbe.2.2⟩
       | cons x rest =>
         simp only [List.isEmpty_cons, Bool.false_eq_true, if_false, absL]
-        have hl := loop_agree g (execBody g esc call (.mk bp cs)) _ (execBody_good g esc call hcall _) hb var
+        have hl := loop_agree g entry (execBody g esc call (.mk bp cs)) _ (execBody_good g esc call hcall _) hb var
           (((x :: rest).length : Int) - 1) ((absV x :: absL rest).length - 1) (x :: rest) 0 ctx st1 env hr1 hok1 hsc
         rw [absL] at hl
         cases hlv : Spec.Eval.loopSpec (Spec.Eval.renderBlock reg hasBundle esc entry scall (.mk bp cs)) env var
@@ -931,7 +988,7 @@ theorem cmd_agree : (c : Cmd) → cfrag c = true → ∀ (ctx : Scope) (st : St)
     | error => simp [Spec.Eval.Out.bind, Agree, h2 hv]
     | val v =>
       obtain ⟨mv, st1, he, habs, hsc, hheap, hout⟩ := h1 v hv
-      have hr1 : Rel g ctx st1 env := hr.of_heap hheap
+      have hr1 : Rel g entry ctx st1 env := hr.of_heap hheap
       have hok1 : ScopeOk ctx st1 := fun f hf' => by rw [hheap]; exact hok f hf'
       have hown1 : Own ctx st1 := hown.ext (evalIn_ext (fun _ => False) he)
       have hc := cases_agree cases mv hsc hf.2 ctx st1 env hr1 hown1 hok1
@@ -944,14 +1001,14 @@ theorem cmd_agree : (c : Cmd) → cfrag c = true → ∀ (ctx : Scope) (st : St)
         rw [hcv] at hc
         simp only [AgreeB] at hc
         exact ⟨hc.1, by rw [hc.2.1, hout], hc.2.2⟩
-  | .call p name true d ps, hf, _, _, _, _, _, _ => by simp [cfrag] at hf
+  | .call p name true (some d) ps, hf, _, _, _, _, _, _ => by simp [cfrag] at hf
   | .call p name false (some d) ps, hf, _, _, _, _, _, _ => by simp [cfrag] at hf
   | .call p name false none ps, hf, ctx, st, env, hr, hown, hok => by
     simp only [cfrag] at hf
     -- after the call the caller's bindings are what they were (Props/C02 block_cmd_scoped)
     have hgood := C02.block_cmd_scoped g esc call hcall (.call p name false none ps) (by intros; simp) (by intros; simp) ctx st hown
-    have hrel : Rel g ctx (execCmd g esc call (.call p name false none ps) ctx st).st env :=
-      hr.of_lookup (C02.lookup_ext hgood.ext ctx hok)
+    have hrel : Rel g entry ctx (execCmd g esc call (.call p name false none ps) ctx st).st env :=
+      hr.of_ext hgood.ext hok (fun _ _ h => h)
     rw [execCmd] at hrel ⊢
     rw [Spec.Eval.renderCmd, hreg]
     rw [hreg] at hrel
@@ -970,11 +1027,11 @@ theorem cmd_agree : (c : Cmd) → cfrag c = true → ∀ (ctx : Scope) (st : St)
         simp [lookup, heapGet, Frame.find, Spec.Eval.find, absV, Scalar]
       have hne : ∀ f ∈ ctx, f.ref ≠ top [⟨st.heap.length, false⟩] := by
         intro f hf' e; have := hok f hf'; simp [top] at e; omega
-      have hr0 : Rel g ctx { st with heap := st.heap ++ [⟨[], false⟩] } env :=
-        hr.of_lookup (C02.lookup_ext (st := st) (st' := { st with heap := st.heap ++ [⟨[], false⟩] })
+      have hr0 : Rel g entry ctx { st with heap := st.heap ++ [⟨[], false⟩] } env :=
+        hr.of_ext (W := fun _ => False) (st' := { st with heap := st.heap ++ [⟨[], false⟩] })
           ⟨by simp, fun i c hc => ⟨c, by
             have hi : i < st.heap.length := (List.getElem?_eq_some_iff.mp hc).1
-            simp [List.getElem?_append_left hi, hc], rfl, fun _ => rfl⟩, rfl⟩ ctx hok)
+            simp [List.getElem?_append_left hi, hc], rfl, fun _ => rfl⟩, rfl⟩ hok (fun _ _ h => h)
       have hok0 : ScopeOk ctx { st with heap := st.heap ++ [⟨[], false⟩] } := fun f hf' => by
         have := hok f hf'; simp; omega
       have hp := params_agree g esc call reg hasBundle entry scall ps hf [⟨st.heap.length, false⟩] ctx _ env [] hr0 own0 hfr0 hne hok0
@@ -1021,12 +1078,31 @@ theorem cmd_agree : (c : Cmd) → cfrag c = true → ∀ (ctx : Scope) (st : St)
             (by intro f hf'; simp only [List.mem_cons, List.mem_nil_iff, or_false] at hf'; subst hf'; exact hcell) k
           rw [this]
           simp [lookup]
-        have hrc : Rel g cctx s2 { vars := R ++ [], loops := [], ij := env.ij, globals := env.globals } := by
-          refine ⟨fun k _ => ?_, fun k => ?_, hr.globals⟩
+        have hrc : Rel g (R ++ []) cctx s2 { vars := R ++ [], loops := [], ij := env.ij, globals := env.globals } := by
+          refine ⟨⟨fun k _ => ?_, fun k => ?_, hr.base.globals⟩, ?_⟩
           · show absV (lookup s2.heap cctx k) = _
             rw [hlk k]; exact (hpf k).1
           · show Scalar (lookup s2.heap cctx k) = true
             rw [hlk k]; exact (hpf k).2
+          · -- the callee's entry data: its param frame
+            have hs2len : (execParams g esc call ps [⟨st.heap.length, false⟩] ctx { st with heap := st.heap ++ [⟨[], false⟩] }).st.heap.length ≤ s2.heap.length :=
+              (e3 (fun _ => False)).len
+            refine ⟨⟨_, false⟩, [⟨st.heap.length, true⟩], [⟨st.heap.length, true⟩], hcctx, rfl, by simp [alldata], ?_, ?_, ?_⟩
+            · intro x hx e
+              simp only [List.mem_cons, List.mem_nil_iff, or_false] at hx
+              subst hx; simp only at e; omega
+            · intro x hx
+              simp only [List.mem_cons, List.mem_nil_iff, or_false] at hx
+              subst hx; simp only; omega
+            · intro k
+              have hl2 : lookup s2.heap [⟨st.heap.length, true⟩] k =
+                  lookup (execParams g esc call ps [⟨st.heap.length, false⟩] ctx { st with heap := st.heap ++ [⟨[], false⟩] }).st.heap
+                    [⟨st.heap.length, false⟩] k := by
+                have := lookup_ext_W (e3 (fun _ => False)) [⟨st.heap.length, true⟩]
+                  (by intro f hf'; simp only [List.mem_cons, List.mem_nil_iff, or_false] at hf'; subst hf'; exact hcell)
+                  (fun _ _ h => h) k
+                rw [this]; simp [lookup]
+              rw [hl2]; exact hpf k
         have hmem : callee ∈ reg := List.mem_of_find?_eq_some hl
         have hct := hcs callee hmem cctx s2 { entry := R ++ [], ij := env.ij, globals := env.globals } hrc ownc hokc
         have hout2 : s2.out = st.out := by
@@ -1040,30 +1116,155 @@ theorem cmd_agree : (c : Cmd) → cfrag c = true → ∀ (ctx : Scope) (st : St)
           simp only [AgreeT] at hct
           simp only [Agree]
           exact ⟨hct.1, by show bufBytes (call callee cctx s2).st.out = _; rw [hct.2, hout2], hrel⟩
+  | .call p name true none ps, hf, ctx, st, env, hr, hown, hok => by
+    simp only [cfrag] at hf
+    obtain ⟨f0, r0, sc, hc0, hf0, ha0, hne0, hlt0, hfr0e⟩ := hr.ent
+    have halld : alldata ctx = some sc := by rw [hc0, alldata, hf0]; simpa using ha0
+    -- after the call the caller's bindings are what they were (Props/C02 block_cmd_scoped)
+    have hgood := C02.block_cmd_scoped g esc call hcall (.call p name true none ps) (by intros; simp) (by intros; simp) ctx st hown
+    have hrel : Rel g entry ctx (execCmd g esc call (.call p name true none ps) ctx st).st env :=
+      hr.of_ext hgood.ext hok (fun _ _ h => h)
+    rw [execCmd] at hrel ⊢
+    rw [Spec.Eval.renderCmd, hreg]
+    rw [hreg] at hrel
+    cases hl : Registry.lookup reg name with
+    | none => simp [Agree]
+    | some callee =>
+      rw [hl] at hrel
+      simp only [if_true, Spec.Eval.Out.bind] at hrel ⊢
+      have hcd : callData g true none ctx st = some (⟨st.heap.length, false⟩ :: sc, { st with heap := st.heap ++ [⟨[], false⟩] }) := by
+        simp [callData, halld, push]
+      rw [hcd] at hrel ⊢
+      simp only at hrel ⊢
+      -- the callee's param frame: a fresh empty map
+      have own0 : Own (⟨st.heap.length, false⟩ :: sc) { st with heap := st.heap ++ [⟨[], false⟩] } :=
+        ⟨⟨st.heap.length, false⟩, sc, ⟨[], false⟩, rfl, by simp, rfl⟩
+      have hfr0 : FrameRel ({ st with heap := st.heap ++ [⟨[], false⟩] } : St).heap (⟨st.heap.length, false⟩ :: sc) entry :=
+        fun k => by
+          have hl := lookup_push sc st (fun x hx => hlt0 x hx) k
+          have hl' : lookup (st.heap ++ [⟨[], false⟩]) (⟨st.heap.length, false⟩ :: sc) k = lookup st.heap sc k := hl
+          show absV (lookup (st.heap ++ [⟨[], false⟩]) (⟨st.heap.length, false⟩ :: sc) k) = _ ∧ Scalar (lookup (st.heap ++ [⟨[], false⟩]) (⟨st.heap.length, false⟩ :: sc) k) = true
+          rw [hl']; exact hfr0e k
+      have hne : ∀ f ∈ ctx, f.ref ≠ top (⟨st.heap.length, false⟩ :: sc) := by
+        intro f hf' e; have := hok f hf'; simp [top] at e; omega
+      have hr0 : Rel g entry ctx { st with heap := st.heap ++ [⟨[], false⟩] } env :=
+        hr.of_ext (W := fun _ => False) (st' := { st with heap := st.heap ++ [⟨[], false⟩] })
+          ⟨by simp, fun i c hc => ⟨c, by
+            have hi : i < st.heap.length := (List.getElem?_eq_some_iff.mp hc).1
+            simp [List.getElem?_append_left hi, hc], rfl, fun _ => rfl⟩, rfl⟩ hok (fun _ _ h => h)
+      have hok0 : ScopeOk ctx { st with heap := st.heap ++ [⟨[], false⟩] } := fun f hf' => by
+        have := hok f hf'; simp; omega
+      have hp := params_agree g esc call reg hasBundle entry scall ps hf (⟨st.heap.length, false⟩ :: sc) ctx _ env entry hr0 own0 hfr0 hne hok0
+      have hpg := execParams_good g esc call hcall ps (⟨st.heap.length, false⟩ :: sc) ctx { st with heap := st.heap ++ [⟨[], false⟩] } own0
+      cases hpv : Spec.Eval.renderParams reg hasBundle esc entry scall ps env with
+      | unspec => simp [Agree]
+      | error => rw [hpv] at hp; simp only at hp; simp [Agree, hp]
+      | val R =>
+        rw [hpv] at hp
+        simp only at hp
+        obtain ⟨hpc, hpf, hpo⟩ := hp
+        simp only [hpc, hpg.ctx_eq hpc] at hrel ⊢
+        obtain ⟨cctx, s2, hent, ownc, e3, htopc, hcctx⟩ := enter_cons ⟨st.heap.length, false⟩ sc
+          (execParams g esc call ps (⟨st.heap.length, false⟩ :: sc) ctx { st with heap := st.heap ++ [⟨[], false⟩] }).st
+        rw [hent] at hrel ⊢
+        simp only at hrel ⊢
+        -- the callee starts from exactly the params
+        have hlen := hpg.ext.len
+        have hcell : st.heap.length < (execParams g esc call ps (⟨st.heap.length, false⟩ :: sc) ctx { st with heap := st.heap ++ [⟨[], false⟩] }).st.heap.length := by
+          simp at hlen; omega
+        have hsc : ∀ x ∈ (⟨st.heap.length, true⟩ :: sc : Scope), x.ref <
+            (execParams g esc call ps (⟨st.heap.length, false⟩ :: sc) ctx { st with heap := st.heap ++ [⟨[], false⟩] }).st.heap.length := by
+          intro x hx
+          simp only [List.mem_cons] at hx
+          rcases hx with rfl | hx
+          · exact hcell
+          · exact Nat.lt_trans (hlt0 x hx) hcell
+        have hokc : ScopeOk cctx s2 := by
+          intro f hf'
+          rw [hcctx] at hf'
+          have := (e3 (fun _ => False)).len
+          simp only [List.mem_cons] at hf'
+          rcases hf' with rfl | hf'
+          · simp only; have h2 : s2.heap.length = (execParams g esc call ps (⟨st.heap.length, false⟩ :: sc) ctx { st with heap := st.heap ++ [⟨[], false⟩] }).st.heap.length + 1 := by
+              simp only [enter, push, Option.some.injEq, Prod.mk.injEq] at hent; rw [← hent.2]; simp
+            omega
+          · exact Nat.lt_of_lt_of_le (hsc f (by simpa using hf')) this
+        have hlk : ∀ k, lookup s2.heap cctx k =
+            lookup (execParams g esc call ps (⟨st.heap.length, false⟩ :: sc) ctx { st with heap := st.heap ++ [⟨[], false⟩] }).st.heap
+              (⟨st.heap.length, false⟩ :: sc) k := by
+          intro k
+          have hpe := hent
+          simp only [enter, Option.some.injEq] at hpe
+          have hc1 : cctx = (push (⟨st.heap.length, true⟩ :: sc)
+              (execParams g esc call ps (⟨st.heap.length, false⟩ :: sc) ctx { st with heap := st.heap ++ [⟨[], false⟩] }).st).1 := by rw [hpe]
+          have hs2 : s2 = (push (⟨st.heap.length, true⟩ :: sc)
+              (execParams g esc call ps (⟨st.heap.length, false⟩ :: sc) ctx { st with heap := st.heap ++ [⟨[], false⟩] }).st).2 := by rw [hpe]
+          rw [hc1, hs2]
+          have := lookup_push (⟨st.heap.length, true⟩ :: sc)
+            (execParams g esc call ps (⟨st.heap.length, false⟩ :: sc) ctx { st with heap := st.heap ++ [⟨[], false⟩] }).st
+            hsc k
+          rw [this]
+          simp [lookup]
+        have hrc : Rel g (R ++ entry) cctx s2 { vars := R ++ entry, loops := [], ij := env.ij, globals := env.globals } := by
+          refine ⟨⟨fun k _ => ?_, fun k => ?_, hr.base.globals⟩, ?_⟩
+          · show absV (lookup s2.heap cctx k) = _
+            rw [hlk k]; exact (hpf k).1
+          · show Scalar (lookup s2.heap cctx k) = true
+            rw [hlk k]; exact (hpf k).2
+          · -- the callee's entry data: its param frame
+            have hs2len : (execParams g esc call ps (⟨st.heap.length, false⟩ :: sc) ctx { st with heap := st.heap ++ [⟨[], false⟩] }).st.heap.length ≤ s2.heap.length :=
+              (e3 (fun _ => False)).len
+            refine ⟨⟨_, false⟩, (⟨st.heap.length, true⟩ :: sc), (⟨st.heap.length, true⟩ :: sc), hcctx, rfl, by simp [alldata], ?_, ?_, ?_⟩
+            · intro x hx e
+              have := hsc x hx; simp only at e; omega
+            · intro x hx
+              exact Nat.lt_of_lt_of_le (hsc x hx) hs2len
+            · intro k
+              have hl2 : lookup s2.heap (⟨st.heap.length, true⟩ :: sc) k =
+                  lookup (execParams g esc call ps (⟨st.heap.length, false⟩ :: sc) ctx { st with heap := st.heap ++ [⟨[], false⟩] }).st.heap
+                    (⟨st.heap.length, false⟩ :: sc) k := by
+                have := lookup_ext_W (e3 (fun _ => False)) (⟨st.heap.length, true⟩ :: sc)
+                  hsc
+                  (fun _ _ h => h) k
+                rw [this]; simp [lookup]
+              rw [hl2]; exact hpf k
+        have hmem : callee ∈ reg := List.mem_of_find?_eq_some hl
+        have hct := hcs callee hmem cctx s2 { entry := R ++ entry, ij := env.ij, globals := env.globals } hrc ownc hokc
+        have hout2 : s2.out = st.out := by
+          simp only [enter, push, Option.some.injEq, Prod.mk.injEq] at hent
+          rw [← hent.2]; exact hpo
+        cases hsv : scall callee { entry := R ++ entry, ij := env.ij, globals := env.globals } with
+        | unspec => simp [Agree]
+        | error => rw [hsv] at hct; simpa [Agree, AgreeT] using hct
+        | val out =>
+          rw [hsv] at hct
+          simp only [AgreeT] at hct
+          simp only [Agree]
+          exact ⟨hct.1, by show bufBytes (call callee cctx s2).st.out = _; rw [hct.2, hout2], hrel⟩
   | .namespace .., hf, _, _, _, _, _, _ => by simp [cfrag] at hf
   | .template .., hf, _, _, _, _, _, _ => by simp [cfrag] at hf
   | .soyDoc .., hf, _, _, _, _, _, _ => by simp [cfrag] at hf
 /-- a block: `walkBlock` against the specification's `renderBlock` -/
 theorem body_agree : (b : Block) → bfrag b = true → ∀ (ctx : Scope) (st : St) (env : Spec.Eval.Env),
-    Rel g ctx st env → ScopeOk ctx st →
-    AgreeB g ctx st env (walkBlockOf (execBody g esc call b) ctx st) (Spec.Eval.renderBlock reg hasBundle esc entry scall b env)
+    Rel g entry ctx st env → ScopeOk ctx st →
+    AgreeB g entry ctx st env (walkBlockOf (execBody g esc call b) ctx st) (Spec.Eval.renderBlock reg hasBundle esc entry scall b env)
   | .mk _ cs, hf, ctx, st, env, hr, hok => by
     simp only [bfrag] at hf
-    refine block_agree g (execBody g esc call (.mk _ cs)) _ (execBody_good g esc call hcall _) ?_ ctx st env hr hok
+    refine block_agree g entry (execBody g esc call (.mk _ cs)) _ (execBody_good g esc call hcall _) ?_ ctx st env hr hok
     intro ctx' st' env' hr' hown' hok'
     refine ⟨cmdsE esc reg hasBundle entry scall cs env', ?_, ?_⟩
     · rw [execBody]; exact Agree.of_atNode (cmds_agree cs hf ctx' _ env' (hr'.of_heap rfl) (hown'.atNode _) hok')
     · rw [Spec.Eval.renderBlock]; exact renderCmds_eq esc reg hasBundle entry scall cs env'
 theorem cmds_agree : (cs : CmdList) → csFrag cs = true → ∀ (ctx : Scope) (st : St) (env : Spec.Eval.Env),
-    Rel g ctx st env → Own ctx st → ScopeOk ctx st →
-    Agree g ctx st (execCmds g esc call cs ctx st) (cmdsE esc reg hasBundle entry scall cs env)
+    Rel g entry ctx st env → Own ctx st → ScopeOk ctx st →
+    Agree g entry ctx st (execCmds g esc call cs ctx st) (cmdsE esc reg hasBundle entry scall cs env)
   | .nil, _, ctx, st, env, hr, _, _ => by
     rw [execCmds, cmdsE]; exact ⟨rfl, by simp, hr⟩
   | .cons c rest, hf, ctx, st, env, hr, hown, hok => by
     simp only [csFrag, Bool.and_eq_true] at hf
     rw [execCmds]
     refine Agree.of_atNode (p := cmdPos c) ?_
-    have hr0 : Rel g ctx (atNode st (cmdPos c)) env := hr.of_heap rfl
+    have hr0 : Rel g entry ctx (atNode st (cmdPos c)) env := hr.of_heap rfl
     have hown0 : Own ctx (atNode st (cmdPos c)) := hown.atNode _
     have hok0 : ScopeOk ctx (atNode st (cmdPos c)) := hok
     clear hr hown hok
@@ -1091,16 +1292,16 @@ theorem cmds_agree : (cs : CmdList) → csFrag cs = true → ∀ (ctx : Scope) (
         simp only [Agree] at h2 ⊢
         exact ⟨h2.1, by rw [h2.2.1, hbytes]; simp, h2.2.2⟩
 theorem cases_agree : (cs : CaseList) → (sv : Value) → Scalar sv = true → casesFrag cs = true →
-    ∀ (ctx : Scope) (st : St) (env : Spec.Eval.Env), Rel g ctx st env → Own ctx st → ScopeOk ctx st →
-    AgreeB g ctx st env (execCases g esc call cs sv ctx st)
+    ∀ (ctx : Scope) (st : St) (env : Spec.Eval.Env), Rel g entry ctx st env → Own ctx st → ScopeOk ctx st →
+    AgreeB g entry ctx st env (execCases g esc call cs sv ctx st)
       (Spec.Eval.renderCases reg hasBundle esc entry scall cs (absV sv) env)
   | .nil, _, _, _, ctx, st, env, hr, _, _ => by
     rw [execCases, Spec.Eval.renderCases]; exact ⟨rfl, by simp, hr⟩
   | .cons _ values body rest, sv, hsv, hf, ctx, st, env, hr, hown, hok => by
     simp only [casesFrag, Bool.and_eq_true] at hf
-    obtain ⟨m1, m2⟩ := matchCase_sim g sv hsv values st hr hf.1.1
+    obtain ⟨m1, m2⟩ := matchCase_sim g entry sv hsv values st hr hf.1.1
     rw [execCases, Spec.Eval.renderCases]
-    have conv : ∀ {st1 : St} {r : R} {o : Out Bytes}, st1.out = st.out → AgreeB g ctx st1 env r o → AgreeB g ctx st env r o := by
+    have conv : ∀ {st1 : St} {r : R} {o : Out Bytes}, st1.out = st.out → AgreeB g entry ctx st1 env r o → AgreeB g entry ctx st env r o := by
       intro st1 r o ho h
       cases o with
       | unspec => trivial
@@ -1117,7 +1318,7 @@ theorem cases_agree : (cs : CaseList) → (sv : Value) → Scalar sv = true → 
       | error => simp [Spec.Eval.Out.bind, AgreeB, m2 hm]
       | val b =>
         obtain ⟨st1, hmc, hh, ho⟩ := m1 b hm
-        have hr1 : Rel g ctx st1 env := hr.of_heap hh
+        have hr1 : Rel g entry ctx st1 env := hr.of_heap hh
         have hok1 : ScopeOk ctx st1 := fun f hf' => by rw [hh]; exact hok f hf'
         have hown1 : Own ctx st1 := hown.ext (Ext.of_heap_eq (W := fun _ => False) hh (matchCase_ext (fun _ => False) _ _ _ _ hmc).foreign)
         simp only [Spec.Eval.Out.bind, hmc]
@@ -1127,8 +1328,8 @@ theorem cases_agree : (cs : CaseList) → (sv : Value) → Scalar sv = true → 
           simp only [Bool.false_eq_true, if_false, List.isEmpty_cons]
           exact conv ho (cases_agree rest sv hsv hf.2 ctx st1 env hr1 hown1 hok1)
 theorem conds_agree : (cs : CondList) → condsFrag cs = true → ∀ (ctx : Scope) (st : St) (env : Spec.Eval.Env),
-    Rel g ctx st env → Own ctx st → ScopeOk ctx st →
-    AgreeB g ctx st env (execConds g esc call cs ctx st) (Spec.Eval.renderConds reg hasBundle esc entry scall cs env)
+    Rel g entry ctx st env → Own ctx st → ScopeOk ctx st →
+    AgreeB g entry ctx st env (execConds g esc call cs ctx st) (Spec.Eval.renderConds reg hasBundle esc entry scall cs env)
   | .nil, _, ctx, st, env, hr, _, _ => by
     rw [execConds, Spec.Eval.renderConds]; exact ⟨rfl, by simp, hr⟩
   | .cons _ none body _, hf, ctx, st, env, hr, _, hok => by
@@ -1144,11 +1345,11 @@ theorem conds_agree : (cs : CondList) → condsFrag cs = true → ∀ (ctx : Sco
     | error => simp [Spec.Eval.Out.bind, AgreeB, h2 hv]
     | val v =>
       obtain ⟨mv, st1, he, habs, hsc, hheap, hout⟩ := h1 v hv
-      have hr1 : Rel g ctx st1 env := hr.of_heap hheap
+      have hr1 : Rel g entry ctx st1 env := hr.of_heap hheap
       have hok1 : ScopeOk ctx st1 := fun f hf' => by rw [hheap]; exact hok f hf'
       have hown1 : Own ctx st1 := hown.ext (evalIn_ext (fun _ => False) he)
       simp only [Spec.Eval.Out.bind, he, ← habs, truthy_abs mv hsc]
-      have conv : ∀ {r : R} {o : Out Bytes}, AgreeB g ctx st1 env r o → AgreeB g ctx st env r o := by
+      have conv : ∀ {r : R} {o : Out Bytes}, AgreeB g entry ctx st1 env r o → AgreeB g entry ctx st env r o := by
         intro r o h
         cases o with
         | unspec => trivial
@@ -1167,7 +1368,7 @@ include hob hcall hreg hcs in
     yields text the model ends ok and has written exactly that text after what was written before;
     whenever it yields an error the model yields an error. -/
 theorem exec_refines_lexical_partial (b : Block) (hf : bfrag b = true) (ctx : Scope) (st : St) (env : Spec.Eval.Env)
-    (hr : Rel g ctx st env) (hown : Own ctx st) (hok : ScopeOk ctx st) :
+    (hr : Rel g entry ctx st env) (hown : Own ctx st) (hok : ScopeOk ctx st) :
     match Spec.Eval.renderBlock reg hasBundle esc entry scall b env with
     | .val out => (execBody g esc call b ctx st).cls = .ok ∧
         bufBytes (execBody g esc call b ctx st).st.out = bufBytes st.out ++ out
@@ -1188,15 +1389,15 @@ include hob hcall hreg hcs in
     `list_variable_agrees`), the loop refines the lexical semantics: the body runs once per element in a
     frame of its own, the loop variable is gone afterwards. -/
 theorem foreach_over_value_refines (p0 : Nat) (var : Bytes) (E : Expr) (bp : Nat) (cs : CmdList) (hfb : csFrag cs = true)
-    (ctx : Scope) (st : St) (env : Spec.Eval.Env) (hr : Rel g ctx st env) (hown : Own ctx st) (hok : ScopeOk ctx st)
+    (ctx : Scope) (st : St) (env : Spec.Eval.Env) (hr : Rel g entry ctx st env) (hown : Own ctx st) (hok : ScopeOk ctx st)
     (hE : (∀ v, Spec.Eval.eval env E = .val v → ∃ id mvs st1, evalIn g E ctx st = some (.list id mvs, st1) ∧
           v = .list (absL mvs) ∧ (∀ x ∈ mvs, Scalar x = true) ∧ st1.heap = st.heap ∧ st1.out = st.out) ∧
         (Spec.Eval.eval env E = .error → evalIn g E ctx st = none)) :
-    Agree g ctx st (execCmd g esc call (.forc p0 var E (.mk bp cs) none) ctx st)
+    Agree g entry ctx st (execCmd g esc call (.forc p0 var E (.mk bp cs) none) ctx st)
       (Spec.Eval.renderCmd reg hasBundle esc entry scall (.forc p0 var E (.mk bp cs) none) env) := by
     obtain ⟨h1, h2⟩ := hE
-    have hb : ∀ ctx' st' env', Rel g ctx' st' env' → Own ctx' st' → ScopeOk ctx' st' →
-        ∃ o : Spec.Eval.ROut, Agree g ctx' st' (execBody g esc call (.mk bp cs) ctx' st') o ∧
+    have hb : ∀ ctx' st' env', Rel g entry ctx' st' env' → Own ctx' st' → ScopeOk ctx' st' →
+        ∃ o : Spec.Eval.ROut, Agree g entry ctx' st' (execBody g esc call (.mk bp cs) ctx' st') o ∧
           Spec.Eval.renderBlock reg hasBundle esc entry scall (.mk bp cs) env' = o.bind fun q => .val q.1 := by
       intro ctx' st' env' hr' hown' hok'
       refine ⟨cmdsE esc reg hasBundle entry scall cs env', ?_, ?_⟩
@@ -1209,7 +1410,7 @@ theorem foreach_over_value_refines (p0 : Nat) (var : Bytes) (E : Expr) (bp : Nat
     | val v =>
       obtain ⟨id, mvs, st1, he, hveq, hsc, hheap, hout⟩ := h1 v hv
       subst hveq
-      have hr1 : Rel g ctx st1 env := hr.of_heap hheap
+      have hr1 : Rel g entry ctx st1 env := hr.of_heap hheap
       have hok1 : ScopeOk ctx st1 := fun f hf' => by rw [hheap]; exact hok f hf'
       simp only [Spec.Eval.Out.bind, he]
       cases mvs with
@@ -1218,7 +1419,7 @@ theorem foreach_over_value_refines (p0 : Nat) (var : Bytes) (E : Expr) (bp : Nat
         exact ⟨rfl, by rw [hout]; simp, hr1⟩
       | cons x rest =>
         simp only [List.isEmpty_cons, Bool.false_eq_true, if_false, absL]
-        have hl := loop_agree g (execBody g esc call (.mk bp cs)) _ (execBody_good g esc call hcall _) hb var
+        have hl := loop_agree g entry (execBody g esc call (.mk bp cs)) _ (execBody_good g esc call hcall _) hb var
           (((x :: rest).length : Int) - 1) ((absV x :: absL rest).length - 1) (x :: rest) 0 ctx st1 env hr1 hok1 hsc
         rw [absL] at hl
         cases hlv : Spec.Eval.loopSpec (Spec.Eval.renderBlock reg hasBundle esc entry scall (.mk bp cs)) env var
@@ -1256,7 +1457,7 @@ def regFrag (reg : Registry.Reg) : Prop := ∀ t ∈ reg, bfrag t.body = true
 /-- a template invocation refines the specification's, at every call depth -/
 theorem tmpl_refines (g : GEnv) (hob : g.oblig = []) (hasBundle : Bool) (hfr : regFrag g.reg) :
     ∀ (fuel : Nat) (t : Registry.Tmpl), t ∈ g.reg → ∀ (cctx : Scope) (s2 : St) (ce : Spec.Eval.CallEnv),
-      Rel g cctx s2 { vars := ce.entry, loops := [], ij := ce.ij, globals := ce.globals } → Own cctx s2 → ScopeOk cctx s2 →
+      Rel g ce.entry cctx s2 { vars := ce.entry, loops := [], ij := ce.ij, globals := ce.globals } → Own cctx s2 → ScopeOk cctx s2 →
       AgreeT s2 (runTmpl g fuel t cctx s2) (Spec.Eval.renderTmpl g.reg hasBundle fuel t ce) := by
   intro fuel
   induction fuel with
@@ -1299,7 +1500,8 @@ theorem execute_some (g : GEnv) (name : Bytes) (data : Frame) (fuel : Nat) (t : 
 
 /-- `exec_refines_lexical` on the fragment, closed: for a registry whose templates are all in the fragment
     (raw text, print without directives, css, debugger, log, if/elseif/else, switch, foreach over a list
-    literal, let value / content, calls WITHOUT a data attribute and with value params), scalar data and
+    literal or a range, let value / content, calls without a data attribute or with data="all", with value
+    params), scalar data and
     globals, no obligatory directive: whenever `Spec.render` yields text, `execute` ends ok having written
     exactly that text; whenever it yields an error, `execute` fails. -/
 theorem render_refines_lexical_partial (g : GEnv) (hob : g.oblig = []) (hfr : regFrag g.reg)
@@ -1327,18 +1529,19 @@ theorem render_refines_lexical_partial (g : GEnv) (hob : g.oblig = []) (hfr : re
         split at h
         · simp only [Option.some.injEq] at h; subst h; exact hs (k', v') List.mem_cons_self
         · exact ih (fun kv hkv => hs kv (List.mem_cons_of_mem _ hkv)) k v h
-    have hrel : Rel g [⟨1, false⟩, ⟨0, true⟩]
-        { heap := [⟨data, true⟩, ⟨[], false⟩], out := [], next := freshBase g data, foreign := 0 }
-        { vars := absK data, loops := [], ij := ij, globals := absK g.globals } := by
-      refine ⟨fun k _ => ?_, fun k => ?_, fun k => ?_⟩
-      · show absV (lookup _ _ k) = Spec.Eval.Env.lookup _ k
-        simp only [lookup, heapGet, Spec.Eval.Env.lookup, find_absK]
+    have hfr0 : FrameRel [⟨data, true⟩, ⟨[], false⟩] [⟨1, false⟩, ⟨0, true⟩] (absK data) := by
+      intro k
+      refine ⟨?_, ?_⟩
+      · simp only [lookup, heapGet, find_absK]
         cases hf : Frame.find data k <;> simp [Frame.find, absV, hf]
-      · show Scalar (lookup _ _ k) = true
-        simp only [lookup, heapGet]
+      · simp only [lookup, heapGet]
         cases hf : Frame.find data k with
         | none => simp [Frame.find, Scalar, hf]
         | some v => simp [Frame.find, hf, hfind data hdata k v hf]
+    have hrel : Rel g (absK data) [⟨1, false⟩, ⟨0, true⟩]
+        { heap := [⟨data, true⟩, ⟨[], false⟩], out := [], next := freshBase g data, foreign := 0 }
+        { vars := absK data, loops := [], ij := ij, globals := absK g.globals } := by
+      refine ⟨⟨fun k _ => (hfr0 k).1, fun k => (hfr0 k).2, fun k => ?_⟩, ?_⟩
       · show match Frame.find g.globals k with
           | some v => Spec.Eval.find (absK g.globals) k = some (absV v) ∧ Scalar v = true
           | none => Spec.Eval.find (absK g.globals) k = none
@@ -1346,6 +1549,11 @@ theorem render_refines_lexical_partial (g : GEnv) (hob : g.oblig = []) (hfr : re
         cases hf : Frame.find g.globals k with
         | none => simp
         | some v => simp [hfind g.globals hgl k v hf]
+      · refine ⟨⟨1, false⟩, [⟨0, true⟩], [⟨0, true⟩], rfl, rfl, by simp [alldata], by simp, by simp, ?_⟩
+        intro k
+        have : lookup [⟨data, true⟩, ⟨[], false⟩] [⟨0, true⟩] k = lookup [⟨data, true⟩, ⟨[], false⟩] [⟨1, false⟩, ⟨0, true⟩] k := by
+          simp [lookup, heapGet, Frame.find]
+        rw [this]; exact hfr0 k
     have hown : Own [⟨1, false⟩, ⟨0, true⟩]
         { heap := [⟨data, true⟩, ⟨[], false⟩], out := [], next := freshBase g data, foreign := 0 } :=
       ⟨⟨1, false⟩, [⟨0, true⟩], ⟨[], false⟩, rfl, rfl, rfl⟩
@@ -1385,26 +1593,26 @@ def st0 : St := { heap := [⟨[([120], .str [111, 117, 116])], true⟩, ⟨[], f
 def ctx0 : Scope := [⟨1, false⟩, ⟨0, true⟩]
 def env0 : Spec.Eval.Env := { vars := [([120], .str [111, 117, 116])], loops := [], ij := none, globals := [] }
 
-theorem rel0 : Rel g0 ctx0 st0 env0 := by
-  refine ⟨fun k _ => ?_, fun k => ?_, fun k => by simp [eenv, g0, Frame.find, env0, Spec.Eval.find]⟩
-  · show absV (lookup st0.heap ctx0 k) = env0.lookup k
+theorem rel0 : Rel g0 env0.vars ctx0 st0 env0 := by
+  have hfr : FrameRel st0.heap ctx0 env0.vars := by
+    intro k
     by_cases h : k = [120]
-    · subst h; rfl
+    · subst h; exact ⟨rfl, rfl⟩
     · have h' : ([120] == k) = false := by simpa using fun e => h e.symm
-      simp [lookup, st0, ctx0, heapGet, Frame.find, h', env0, Spec.Eval.Env.lookup, Spec.Eval.find, absV]
-  · show Scalar (lookup st0.heap ctx0 k) = true
-    by_cases h : k = [120]
-    · subst h; rfl
-    · have h' : ([120] == k) = false := by simpa using fun e => h e.symm
-      simp [lookup, st0, ctx0, heapGet, Frame.find, h', Scalar]
+      simp [lookup, st0, ctx0, heapGet, Frame.find, h', env0, Spec.Eval.find, absV, Scalar]
+  refine ⟨⟨fun k _ => (hfr k).1, fun k => (hfr k).2, fun k => by simp [eenv, g0, Frame.find, env0, Spec.Eval.find]⟩, ?_⟩
+  refine ⟨⟨1, false⟩, [⟨0, true⟩], [⟨0, true⟩], rfl, rfl, by simp [alldata], by simp, by simp [st0], ?_⟩
+  intro k
+  have : lookup st0.heap [⟨0, true⟩] k = lookup st0.heap ctx0 k := by simp [lookup, heapGet, Frame.find, st0, ctx0]
+  rw [this]; exact hfr k
 
 /-- the specification says "inout" (the inner `x` does not leak); by the theorem the model writes "inout" -/
 example : bufBytes (execBody g0 true (fun _ ctx st => ⟨.fuelOut, ctx, st⟩) body0 ctx0 st0).st.out = [105, 110, 111, 117, 116] := by
   have hcall : ∀ t, GoodRun ((fun _ ctx st => ⟨.fuelOut, ctx, st⟩ : Registry.Tmpl → Run) t) :=
     fun _ ctx st _ => ⟨by simp, fun h => by simp at h, Ext.refl _ _⟩
-  have h := exec_refines_lexical_partial g0 rfl true _ hcall [] false [] (fun _ _ => .unspec) rfl (fun _ _ _ _ _ _ _ _ => trivial) body0 (by decide) ctx0 st0 env0 rel0
+  have h := exec_refines_lexical_partial g0 rfl true _ hcall [] false env0.vars (fun _ _ => .unspec) rfl (fun _ _ _ _ _ _ _ _ => trivial) body0 (by decide) ctx0 st0 env0 rel0
     ⟨⟨1, false⟩, [⟨0, true⟩], ⟨[], false⟩, rfl, rfl, rfl⟩ (by intro f hf; simp [ctx0] at hf; rcases hf with rfl | rfl <;> simp [st0])
-  have hs : Spec.Eval.renderBlock [] false true [] (fun _ _ => .unspec) body0 env0 = .val [105, 110, 111, 117, 116] := by rfl
+  have hs : Spec.Eval.renderBlock [] false true env0.vars (fun _ _ => .unspec) body0 env0 = .val [105, 110, 111, 117, 116] := by rfl
   rw [hs] at h
   simpa [bufBytes, st0] using h.2
 
@@ -1419,9 +1627,9 @@ def body1 : Block :=
 example : bufBytes (execBody g0 true (fun _ ctx st => ⟨.fuelOut, ctx, st⟩) body1 ctx0 st0).st.out = [97, 98, 33, 111, 117, 116] := by
   have hcall : ∀ t, GoodRun ((fun _ ctx st => ⟨.fuelOut, ctx, st⟩ : Registry.Tmpl → Run) t) :=
     fun _ ctx st _ => ⟨by simp, fun h => by simp at h, Ext.refl _ _⟩
-  have h := exec_refines_lexical_partial g0 rfl true _ hcall [] false [] (fun _ _ => .unspec) rfl (fun _ _ _ _ _ _ _ _ => trivial) body1 (by decide) ctx0 st0 env0 rel0
+  have h := exec_refines_lexical_partial g0 rfl true _ hcall [] false env0.vars (fun _ _ => .unspec) rfl (fun _ _ _ _ _ _ _ _ => trivial) body1 (by decide) ctx0 st0 env0 rel0
     ⟨⟨1, false⟩, [⟨0, true⟩], ⟨[], false⟩, rfl, rfl, rfl⟩ (by intro f hf; simp [ctx0] at hf; rcases hf with rfl | rfl <;> simp [st0])
-  have hs : Spec.Eval.renderBlock [] false true [] (fun _ _ => .unspec) body1 env0 = .val [97, 98, 33, 111, 117, 116] := by rfl
+  have hs : Spec.Eval.renderBlock [] false true env0.vars (fun _ _ => .unspec) body1 env0 = .val [97, 98, 33, 111, 117, 116] := by rfl
   rw [hs] at h
   simpa [bufBytes, st0] using h.2
 
@@ -1451,6 +1659,33 @@ example : (execute gCall [116] [] 4).cls = .ok ∧ (execute gCall [116] [] 4).ch
   rw [hs] at h
   exact h
 
+/-! ### data="all": `{let $x: 'L' /}{call .d data="all"}{param p: $x /}{/call}` on data {x: 'D'} with
+    .d = `[{$p}{$x}]`: "[LD]" — the callee gets the ENTRY `x`, not the caller's {let} -/
+
+def tCalleeAll : Registry.Tmpl :=
+  { name := [100], params := [], body := .mk 10 (.cons (.rawText 11 [91]) (.cons (.print 12 (.dataRef 13 [112] .nil) [])
+      (.cons (.print 13 (.dataRef 13 [120] .nil) []) (.cons (.rawText 14 [93]) .nil)))),
+    autoescape := .unspecified, nsName := [110], nsAutoescape := .unspecified, pos := 9, file := [102], text := [] }
+
+def tCallerAll : Registry.Tmpl :=
+  { name := [116], params := [],
+    body := .mk 1 (.cons (.letValue 2 [120] (.str 2 [] [76]))
+      (.cons (.call 3 [100] true none (.value 4 [112] (.dataRef 4 [120] .nil) .nil)) .nil)),
+    autoescape := .unspecified, nsName := [110], nsAutoescape := .unspecified, pos := 0, file := [102], text := [] }
+
+def gAll : GEnv := { reg := [tCallerAll, tCalleeAll], globals := [], ij := none, msgs := none, tbl := [], oblig := [] }
+
+example : (execute gAll [116] [([120], .str [68])] 4).cls = .ok ∧
+    (execute gAll [116] [([120], .str [68])] 4).chunks.flatten = [91, 76, 68, 93] := by
+  have hfr : regFrag gAll.reg := by
+    intro t ht
+    simp only [gAll, List.mem_cons, List.mem_nil_iff, or_false] at ht
+    rcases ht with rfl | rfl <;> decide
+  have h := render_refines_lexical_partial gAll rfl hfr (by simp [gAll]) [116] [([120], .str [68])] (by simp [Scalar]) 4 none false
+  have hs : Spec.Eval.render gAll.reg (absK gAll.globals) none false [116] (absK [([120], .str [68])]) 4 = .val [91, 76, 68, 93] := by rfl
+  rw [hs] at h
+  exact h
+
 /-- `{for $i in range(1, 4)}{$i}{/for}{$x}`: "123out" -/
 def body2 : Block :=
   .mk 0 (.cons (.forc 1 [105] (.func 1 fRange (.cons (.int 1 1) (.cons (.int 1 4) .nil)))
@@ -1460,9 +1695,9 @@ def body2 : Block :=
 example : bufBytes (execBody g0 true (fun _ ctx st => ⟨.fuelOut, ctx, st⟩) body2 ctx0 st0).st.out = [49, 50, 51, 111, 117, 116] := by
   have hcall : ∀ t, GoodRun ((fun _ ctx st => ⟨.fuelOut, ctx, st⟩ : Registry.Tmpl → Run) t) :=
     fun _ ctx st _ => ⟨by simp, fun h => by simp at h, Ext.refl _ _⟩
-  have h := exec_refines_lexical_partial g0 rfl true _ hcall [] false [] (fun _ _ => .unspec) rfl (fun _ _ _ _ _ _ _ _ => trivial) body2 (by decide) ctx0 st0 env0 rel0
+  have h := exec_refines_lexical_partial g0 rfl true _ hcall [] false env0.vars (fun _ _ => .unspec) rfl (fun _ _ _ _ _ _ _ _ => trivial) body2 (by decide) ctx0 st0 env0 rel0
     ⟨⟨1, false⟩, [⟨0, true⟩], ⟨[], false⟩, rfl, rfl, rfl⟩ (by intro f hf; simp [ctx0] at hf; rcases hf with rfl | rfl <;> simp [st0])
-  have hs : Spec.Eval.renderBlock [] false true [] (fun _ _ => .unspec) body2 env0 = .val [49, 50, 51, 111, 117, 116] := by rfl
+  have hs : Spec.Eval.renderBlock [] false true env0.vars (fun _ _ => .unspec) body2 env0 = .val [49, 50, 51, 111, 117, 116] := by rfl
   rw [hs] at h
   simpa [bufBytes, st0] using h.2
 
